@@ -121,3 +121,19 @@ Theorem C13_chaos_function_pipeline :
               /\ fge F32ops (chaos_fn F32ops (pipeline_dec B) t (threshold F32ops cfg)) (threshold F32ops cfg) = false.
 Proof. exact pipeline_dec_chaos_function. Qed.
 Print Assumptions C13_chaos_function_pipeline.
+
+(* ... and for EVERY single-byte encoding able to represent the text: `text_form` = the four Unicode presentations
+   plus the text encoded by any single-byte table (generated from the codec crate) that has all its characters.
+   What is left out is the 8 CJK codecs, which stay oracles. *)
+Theorem C13_any_modelled_encoding_same_chaos :
+  forall (B : base_oracles), (forall e l t, b_sdecode B e l = Some t -> len t <= len l) ->
+  forall t b1 e1 b2 e2 cfg1 cfg2 inc1 exc1 inc2 exc2 m1 m2 x1 x2,
+    Forall scalar t -> text_form t b1 e1 -> text_form t b2 e2 ->
+    len b1 <= chunk_size F32ops cfg1 * steps F32ops cfg1 -> len b1 <= TOO_BIG_SEQUENCE ->
+    len b2 <= chunk_size F32ops cfg2 * steps F32ops cfg2 -> len b2 <= TOO_BIG_SEQUENCE ->
+    threshold F32ops cfg1 = threshold F32ops cfg2 ->
+    probe F32ops (pipeline_dec B) (make_ctx F32ops (pipeline_dec B) b1 cfg1 inc1 exc1) e1 = Ok (Accept F32ops m1 x1) ->
+    probe F32ops (pipeline_dec B) (make_ctx F32ops (pipeline_dec B) b2 cfg2 inc2 exc2) e2 = Ok (Accept F32ops m2 x2) ->
+    m_text F32ops m1 = Some t /\ m_text F32ops m2 = Some t /\ m_chaos F32ops m1 = m_chaos F32ops m2.
+Proof. exact all_forms_same_chaos. Qed.
+Print Assumptions C13_any_modelled_encoding_same_chaos.
